@@ -221,8 +221,43 @@ def main(tier_: str) -> int:
                                   'loc_eq': 1 if pp['patch_location'] == p2['patch_location'] and pp['patch_ttl'] == p2['patch_ttl'] else 0,
                                   'tls_patched': rb(tp), 'tls_full': rb(tf), 'ops': info['ops'], 'unresolved': info['unresolved'],
                                   'ast_moved': 0 if p1['availabilityStartTime'] == p2['availabilityStartTime'] else 1})
+            # ---- (D) player sessions: chains of refreshes and in-order fetches through time ------------------------
+            from harness.httplive import HttpDriver
+            from harness.session import play
+            rps = run_tlc('PlayerSessionMC', 'PlayerSessionMC.cfg', workdir=d, workers=8, timeout=600)
+            tlc_must_pass(rps, 'PlayerSessionMC')
+            for w in ('SomeLate404', 'SomeSkip'):
+                rw = run_tlc('PlayerSessionMC', f'PlayerSessionMC_{w}.cfg', workdir=d, workers=4, timeout=300)
+                if rw.invariant_violated() != w:
+                    raise MachineryFailure(f'player session witness {w} not reachable')
+            drv = HttpDriver(da)
+            slines: list[dict[str, Any]] = []
+            starts = [datetime.datetime(2024, 2, 29, 23, 58, 40, tzinfo=datetime.timezone.utc),        # across a day boundary
+                      datetime.datetime(2024, 3, 5, 12, 0, 21, 500000, tzinfo=datetime.timezone.utc)]  # across a loop seam of the source
+            scfgs = [('hand_made.mpd', 'timeline=1&depth=30&start=2024-02-29T20:00:00Z'), ('manifest_n.mpd', 'depth=20&start=today'),
+                     ('manifest_a.mpd', 'depth=45&start=epoch'), ('hand_made.mpd', 'timeline=1&depth=30&drm=all&start=2024-02-29T23:50:00.500Z'),
+                     ('hand_made.mpd', 'timeline=1&depth=20&mup=4&start=year')]
+            nsess = 0
+            for tmpl_s, qs_s in (scfgs if tier_ == 'thorough' else rng.sample(scfgs, 3)):
+                for t0 in starts:
+                    nsess += 1
+                    slines += play(drv, 10**6 + nsess, 'bbb', tmpl_s, qs_s, t0, 30 if tier_ == 'quick' else 120, rng)
         for i, ln in enumerate(lines):
             ln['tid'] = i + 1
+        svs, sst = validate_trace('PlayerSessionTrace', slines, workdir=d, chunk=1500, parallel=8)
+        for v in svs:
+            lo = v['lineobj']
+            case = {'ev': 'session', 'layer': 'session', 'url': lo.get('url'), 't1': lo.get('now'), 'rep': lo.get('rep'), 'step': lo['ev'],
+                    'detail': v['detail']}
+            out.add(Violation('C09', v['clause'], case))
+        out.coverage['player_sessions'] = {'sessions': nsess, 'lines': len(slines), 'manifests': sum(1 for x in slines if x['ev'] == 'manifest'),
+                                           'fetches': sum(1 for x in slines if x['ev'] == 'fetch'),
+                                           'fetches_200': sum(1 for x in slines if x['ev'] == 'fetch' and x['status'] == 200),
+                                           'late_fetches': sum(1 for x in slines if x['ev'] == 'fetch' and not x['same_instant']),
+                                           'skips': sum(1 for x in slines if x['ev'] == 'fetch' and x['skipped']),
+                                           'model_states': rps.distinct}
+        if not any(x['ev'] == 'fetch' and x['status'] == 200 for x in slines):
+            raise MachineryFailure('player sessions fetched nothing')
         vs, st = validate_trace('RefreshTrace', lines, workdir=d, chunk=1500, parallel=12)
         seen: set[str] = set()
         for v in vs:
